@@ -133,6 +133,8 @@ class Tr:
                 return '(ofZ %s)' % inner
             if ck == 'FloatingToIntegral':
                 return '(toZ %s)' % inner
+            if ck == 'Dependent' and is_double(n) and not is_double(n['inner'][0]):
+                return '(ofZ %s)' % inner          # static_cast<double>(x) on an `auto` variable inside a template pattern
             if ck == 'IntegralToBoolean':
                 return '(negb (Z.eqb %s 0))' % inner
             if ck == 'PointerToBoolean':
@@ -248,6 +250,11 @@ class Tr:
             if name == self.selfname and len(args) == len(self.params) and self.static:
                 self.selfrec = True
                 return '(self %s)' % ' '.join(args)
+            if name in self.unit.get('this_calls', ()):
+                # unit option this_calls: unqualified calls that clang leaves unresolved inside a class-template pattern
+                # but that name non-static members of the same class
+                self.uses_this = True
+                return '(%s st%s)' % (self.callname('m', name, len(args)), ''.join(' ' + a for a in args))
             return '(%s%s)' % (self.callname('c', name, len(args)), ''.join(' ' + a for a in args) if args else ' tt')
         if k == 'ArraySubscriptExpr':
             a, i = n['inner']
@@ -456,6 +463,8 @@ class Tr:
             return chain(0)
         if kind == 'ForStmt':
             return self.for_stmt(s, cont)
+        if kind == 'WhileStmt':
+            return self.while_stmt(s, cont)
         if kind == 'NullStmt':
             return cont()
         if kind == 'CStyleCastExpr' and qt(s) == 'void':
@@ -600,6 +609,32 @@ class Tr:
         bodytxt = self.stmts([body], lambda: tup)
         return ('(let %s := fold_left (fun acc %s => let %s := acc in\n %s) (zrange %s %s) %s in\n %s)'
                 % (pat, ivn, pat, bodytxt, lo, hi, tup, cont()))
+
+    def while_stmt(self, s, cont):
+        """while (cond) body  with no return/break inside: iteration on explicit fuel (unit option while_fuel, a Gallina
+        nat expression over the parameters); running out of fuel yields the unit's default value through `None`, which the
+        theorems about the unit must exclude.  The prelude supplies
+          while_loop : nat -> (A -> bool) -> (A -> A) -> A -> option A."""
+        inner = [c for c in s['inner'] if isinstance(c, dict) and c.get('kind')]
+        cond, body = inner[-2], inner[-1]
+        fuel = self.unit.get('while_fuel')
+        if not fuel:
+            raise Unsupported('while without the unit option while_fuel')
+        if self.has_return(body):
+            raise Unsupported('return/break inside while')
+        asg = sorted(self.assigned(body, set()) - self.declared(body, set()))
+        if '?' in asg:
+            raise Unsupported('while-body assigns through an unknown object')
+        if 'st' in asg:
+            self.mutates = True; self.uses_this = True
+        if not asg:
+            raise Unsupported('while-body assigns nothing')
+        tup = '(%s)' % ', '.join(asg) if len(asg) > 1 else asg[0]
+        pat = "'" + tup if len(asg) > 1 else tup
+        condtxt = self.expr(cond)
+        bodytxt = self.stmts([body], lambda: tup)
+        return ('(match while_loop %s (fun acc => let %s := acc in %s) (fun acc => let %s := acc in\n %s) %s with\n | Some %s =>\n %s\n | None => %s end)'
+                % (fuel, pat, condtxt, pat, bodytxt, tup, tup, cont(), self.ret(self.dflt)))
 
     def collect_locals(self, n):
         if n.get('kind') == 'VarDecl' and 'name' in n:
